@@ -191,10 +191,53 @@ Outcomes(M, reqs) ==
        IN  IF r = {} THEN {""} ELSE r
 
 (***************************************************************************)
+(* Retarget, then delete, in one RewritingContext.  apply() runs the block *)
+(* edits, then the retargets, then the symbol deletions.  dels is the      *)
+(* sequence of registered <<name, force>> deletions.  DeleteOn is          *)
+(* DelSym!Expected projected onto the relations of this module (the        *)
+(* symbol tables live in M.rest and are judged by TraceRetarget with       *)
+(* DelSym!Expected itself).                                                *)
+(***************************************************************************)
+Mentions(e) == {e.s1} \cup (IF e.f = "A" THEN {e.s2} ELSE {})
+DelSet(dels) == {dels[i][1] : i \in DOMAIN dels}
+ForcedSet(dels) == {s \in DelSet(dels) : \A i \in DOMAIN dels : dels[i][1] = s => dels[i][2]}
+
+DeleteOn(M, del) ==
+  [M EXCEPT
+     !.syms = {s \in @ : s.n \notin del},
+     !.sx = {e \in @ : Mentions(e) \cap del = {}},
+     !.cfi = {IF c.sym \in del
+              THEN [c EXCEPT !.sym = "",
+                             !.args = IF c.dir \in {".cfi_personality", ".cfi_lsda"} THEN <<255>> ELSE @]
+              ELSE c : c \in @},
+     !.fwd = {p \in @ : p[1] \notin del /\ p[2] \notin del},
+     !.fns = {[f EXCEPT !.name = IF @ \in del THEN "" ELSE @] : f \in @}]
+
+\* admissible outcomes of the combined history
+OutcomesD(M, reqs, rules, dels) ==
+  LET o == Outcomes(M, reqs) IN
+  IF o # {""} \/ dels = <<>> THEN o
+  ELSE LET E1 == Expected(M, MapOf(reqs), rules)
+       IN  IF \E s \in DelSet(dels) : s \notin Names(M) THEN {"ValueError"}
+           ELSE IF \E s \in DelSet(dels) \ ForcedSet(dels) : \E e \in E1.sx : s \in Mentions(e)
+           THEN {"SymbolUsesRemainingError"} ELSE {""}
+
+\* the final module of the combined history (when it completes)
+Final(M, reqs, rules, dels) == DeleteOn(Expected(M, MapOf(reqs), rules), DelSet(dels))
+
+(***************************************************************************)
 (* Configurations                                                          *)
 (***************************************************************************)
 USyms == {"A", "B", "X"}
 CfKinds == {"jmp", "jcc", "jccft", "call"}
+\* control transfers *through the GOT slot* of the operand symbol (x86-64:
+\* call *S@GOTPCREL(%rip), jmp *S@GOTPCREL(%rip)): the operand is S, the CFG edge
+\* leads to S's referent but is labelled indirect (direct = FALSE)
+GotKinds == {"icallg", "ijmpg"}
+\* every kind whose instruction has a symbolic control-flow operand
+CfLike == CfKinds \cup GotKinds
+\* "ijmp" is the control: jmp *%rax, an indirect edge to the referent of its
+\* symbol but *no* symbolic operand: it must never move
 AttrCat(abi, k) ==
   IF k \in CfKinds
   THEN (IF abi \in {"x64-elf", "x64-pe"} THEN {{}, {"PLT"}} ELSE {{}})
@@ -230,7 +273,15 @@ PatchUses(abi) ==
        \cup (IF abi = "x64-elf" THEN {U("call", "A", "", 0, {"PLT"}, "patch")} ELSE {})
   ELSE {}
 
-UseSet(abi) == (IF Cat = "full" THEN FullUses(abi) ELSE CoreUses(abi)) \cup PatchUses(abi)
+GotUses(abi) ==
+  IF abi # "x64-elf" THEN {}
+  ELSE IF Cat = "full"
+  THEN {U(k, s, "", 0, {"GOT", "PCREL"}, "ir") : k \in GotKinds, s \in {"A", "X"}}
+       \cup {U("ijmp", s, "", 0, {}, "ir") : s \in {"A", "X"}}
+  ELSE {U("icallg", "A", "", 0, {"GOT", "PCREL"}, "ir"), U("ijmpg", "A", "", 0, {"GOT", "PCREL"}, "ir"),
+        U("ijmp", "A", "", 0, {}, "ir")}
+
+UseSet(abi) == (IF Cat = "full" THEN FullUses(abi) ELSE CoreUses(abi)) \cup PatchUses(abi) \cup GotUses(abi)
 CatSeq(abi) == SetToSeq(UseSet(abi))
 
 ReqsOf(name) ==
@@ -248,14 +299,30 @@ ReqsOf(name) ==
     [] name = "FB"    -> << <<"F", "B">> >>
     [] name = "AN"    -> << <<"A", "N">> >>
     [] name = "AB_FC" -> << <<"A", "B">>, <<"F", "C">> >>
+    \* the same, followed by delete_symbol in the same context
+    [] name \in {"AB/dA", "AB/dAf", "AB/dB", "AB/dA_dB"} -> << <<"A", "B">> >>
+    [] name = "AB_BC/dA" -> << <<"A", "B">>, <<"B", "C">> >>
+    [] name = "AB_BA/dA" -> << <<"A", "B">>, <<"B", "A">> >>
+    [] name \in {"XC/dA", "XC/dAf"} -> << <<"X", "C">> >>
+    [] name = "AB_XB/dA_dX" -> << <<"A", "B">>, <<"X", "B">> >>
+
+DelsOf(name) ==
+  CASE name \in {"AB/dA", "AB_BC/dA", "AB_BA/dA", "XC/dA"} -> << <<"A", FALSE>> >>
+    [] name \in {"AB/dAf", "XC/dAf"} -> << <<"A", TRUE>> >>
+    [] name = "AB/dB" -> << <<"B", FALSE>> >>
+    [] name = "AB/dA_dB" -> << <<"A", FALSE>>, <<"B", TRUE>> >>
+    [] name = "AB_XB/dA_dX" -> << <<"A", FALSE>>, <<"X", FALSE>> >>
+    [] OTHER -> <<>>
+
 AllMapNames == {"AB", "AA", "AB_BC", "BC_AB", "AB_BA", "AB_XB", "AB_XC", "XC", "AB_AC",
                 "AB_AB", "AF", "FB", "AN", "AB_FC"}
 
 Universe == {"A", "B", "C", "X"}
 UsesOf(c) == LET cs == CatSeq(c.abi) IN [i \in 1..Len(c.ui) |-> cs[c.ui[i]]]
-Involved(uses, reqs) ==
+Involved(uses, reqs, dels) ==
   ({uses[i].s : i \in DOMAIN uses} \cup {uses[i].s2 : i \in DOMAIN uses}
-   \cup {reqs[i][1] : i \in DOMAIN reqs} \cup {reqs[i][2] : i \in DOMAIN reqs}) \cap Universe
+   \cup {reqs[i][1] : i \in DOMAIN reqs} \cup {reqs[i][2] : i \in DOMAIN reqs}
+   \cup DelSet(dels)) \cap Universe
 
 KindDom(n) == CASE n = "A" -> {"code", "ext", "data"}
                 [] n = "B" -> {"code", "ext", "data"}
@@ -270,7 +337,7 @@ ValidKinds(abi, uses, kinds) ==
   /\ kinds["X"] = "aliasA" => kinds["A"] = "code"
   /\ \A i \in DOMAIN uses :
         LET u == uses[i] IN
-        /\ u.k \in CfKinds => kinds[u.s] # "data"
+        /\ u.k \in CfLike \cup {"ijmp"} => kinds[u.s] # "data"
         /\ u.k = "jccft" => IsCodeLike(kinds[u.s])
         /\ u.via = "patch" => kinds[u.s] # "data"
 
@@ -301,13 +368,13 @@ Mod(c) ==
       I == DOMAIN uses
       rf(n) == RefOfKind(kinds, n)
       codeSyms == {n \in Universe : kinds[n] = "code"}
-      hasR(i) == uses[i].k \in {"jcc", "call"} \/ (uses[i].via = "patch" /\ uses[i].k \in CfKinds \cup {"ref"})
-      acc(k) == IF k \in CfKinds THEN "cf" ELSE IF k = "ref" THEN "ref" ELSE "data"
+      hasR(i) == uses[i].k \in {"jcc", "call", "icallg"} \/ (uses[i].via = "patch" /\ uses[i].k \in CfKinds \cup {"ref"})
+      acc(k) == IF k \in CfLike THEN "cf" ELSE IF k = "ref" THEN "ref" ELSE "data"
       blkOf(i) == IF uses[i].k \in {"dq", "dd"} THEN "W" \o Str(i) ELSE NodeU(i)
       sx == {[blk |-> blkOf(i), o |-> 0, acc |-> acc(uses[i].k),
               f |-> IF uses[i].k = "dd" THEN "A" ELSE "C",
               s1 |-> uses[i].s, s2 |-> uses[i].s2, add |-> uses[i].add, at |-> uses[i].at]
-             : i \in {j \in I : uses[j].k \in CfKinds \cup {"ref", "dq", "dd"}}}
+             : i \in {j \in I : uses[j].k \in CfLike \cup {"ref", "dq", "dd"}}}
       cfi == {[blk |-> "C" \o Str(i), d |-> 0, i |-> 1,
                dir |-> IF uses[i].k = "pers" THEN ".cfi_personality" ELSE ".cfi_lsda",
                args |-> IF uses[i].k = "pers" THEN <<155>> ELSE <<27>>, sym |-> uses[i].s]
@@ -316,18 +383,22 @@ Mod(c) ==
              \cup {<<uses[i].s, "V" \o Str(i - 1)>> : i \in {j \in I : uses[j].k = "fwdk"}}
              \cup {<<uses[i].s, uses[i].s2>> : i \in {j \in I : uses[j].k = "fwd"}}
       E(s, t, ty, cnd) == [s |-> s, t |-> t, ty |-> ty, c |-> cnd, d |-> TRUE]
+      EI(s, t, ty) == [s |-> s, t |-> t, ty |-> ty, c |-> FALSE, d |-> FALSE]
       cfEdges == UNION {
          LET k == uses[i].k  t == rf(uses[i].s) IN
            CASE k = "jmp"   -> {E(NodeU(i), t, "Branch", FALSE)}
              [] k = "jcc"   -> {E(NodeU(i), t, "Branch", TRUE), E(NodeU(i), NodeR(i), "Fallthrough", FALSE)}
              [] k = "jccft" -> {E(NodeU(i), t, "Branch", TRUE), E(NodeU(i), t, "Fallthrough", FALSE)}
              [] k = "call"  -> {E(NodeU(i), t, "Call", FALSE), E(NodeU(i), NodeR(i), "Fallthrough", FALSE)}
+             [] k = "icallg" -> {EI(NodeU(i), t, "Call"), E(NodeU(i), NodeR(i), "Fallthrough", FALSE)}
+             [] k = "ijmpg" -> {EI(NodeU(i), t, "Branch")}
+             [] k = "ijmp"  -> {EI(NodeU(i), t, "Branch")}
              [] OTHER -> {}
          : i \in I}
       fns == {[name |-> n, ent |-> {"F_" \o n}, blk |-> {"F_" \o n}] : n \in codeSyms}
              \cup {[name |-> "u" \o Str(i - 1), ent |-> {NodeU(i)},
                     blk |-> {NodeU(i)} \cup (IF hasR(i) THEN {NodeR(i)} ELSE {})]
-                   : i \in {j \in I : uses[j].k \in CfKinds \cup {"ref"}}}
+                   : i \in {j \in I : uses[j].k \in CfLike \cup {"ref", "ijmp"}}}
              \cup {[name |-> "c" \o Str(i - 1), ent |-> {"C" \o Str(i)}, blk |-> {"C" \o Str(i)}]
                    : i \in {j \in I : uses[j].k \in {"pers", "lsda"}}}
       rets == {"F_" \o n : n \in codeSyms}
@@ -345,7 +416,7 @@ Mod(c) ==
 (***************************************************************************)
 Init ==
   /\ cfg \in {[abi |-> a, pie |-> p, ui |-> <<>>, uses |-> <<>>, reqs |-> <<>>,
-               kinds |-> [A |-> "ext", B |-> "ext", C |-> "ext", X |-> "ext"], map |-> ""]
+               kinds |-> [A |-> "ext", B |-> "ext", C |-> "ext", X |-> "ext"], map |-> "", dels |-> <<>>]
               : a \in Abis, p \in BOOLEAN}
   /\ cfg.pie \in Pies(cfg.abi)
   /\ st = [stage |-> "build", out |-> {}, pre |-> <<>>, mod |-> <<>>]
@@ -361,23 +432,26 @@ AddUse(k) ==
          /\ cfg' = [c2 EXCEPT !.uses = us]
   /\ UNCHANGED st
 
-\* the operation under study: register the requests, then apply()
+\* the operation under study: register the requests (retargets, then possibly
+\* deletions), then apply()
 Retarget(name, kinds) ==
   /\ st.stage = "build"
   /\ Len(cfg.ui) >= 1
   /\ LET reqs == ReqsOf(name)
-         c2 == [cfg EXCEPT !.reqs = reqs, !.kinds = kinds, !.map = name]
+         dels == DelsOf(name)
+         c2 == [cfg EXCEPT !.reqs = reqs, !.kinds = kinds, !.map = name, !.dels = dels]
          M == Mod(c2)
-         out == Outcomes(M, reqs)
+         rules == Rules(cfg.abi, cfg.pie)
+         out == OutcomesD(M, reqs, rules, dels)
      IN  /\ ValidKinds(cfg.abi, cfg.uses, kinds)
          /\ cfg' = c2
          /\ st' = [stage |-> "post", out |-> out, pre |-> M,
-                   mod |-> IF out = {""} THEN Expected(M, MapOf(reqs), Rules(cfg.abi, cfg.pie)) ELSE M]
+                   mod |-> IF out = {""} THEN Final(M, reqs, rules, dels) ELSE M]
 
 \* requests that are refused at registration do not depend on the kinds
 ErrorMaps == {"AB_AC", "AB_AB", "AF", "FB", "AN", "AB_FC"}
 KindsFor(name) ==
-  LET inv == Involved(cfg.uses, ReqsOf(name))
+  LET inv == Involved(cfg.uses, ReqsOf(name), DelsOf(name))
   IN  IF name \in ErrorMaps
       THEN {[A |-> IF "A" \in inv THEN "code" ELSE "ext", B |-> IF "B" \in inv THEN "code" ELSE "ext",
              C |-> IF "C" \in inv THEN "code" ELSE "ext", X |-> IF "X" \in inv THEN "code" ELSE "ext"]}
@@ -443,9 +517,32 @@ Theorems(M, N, map, rules) ==
   /\ (K \cap Vals(map) = {}) => Expected(N, map, rules) = N
   /\ Expected(M, {}, rules) = M
 
+\* theorems of the combined history: E1 is the retargeted module, N the final one
+TheoremsD(M, E1, N, map, dels) ==
+  LET del == DelSet(dels)
+      gone == del \cap (Keys(map) \ Vals(map))     \* deleted symbols whose uses all moved away
+  IN
+  \* no trace of a deleted symbol
+  /\ \A s \in N.syms : s.n \notin del
+  /\ \A e \in N.sx : Mentions(e) \cap del = {}
+  /\ \A c \in N.cfi : c.sym \notin del
+  /\ \A p \in N.fwd : p[1] \notin del /\ p[2] \notin del
+  \* every former use of a retargeted-and-deleted symbol now names its target
+  /\ \A e \in M.sx : (e.f = "C" /\ e.s1 \in gone /\ To(map, e.s1) \notin del) =>
+        \E x \in N.sx : Site(x) = Site(e) /\ x.s1 = To(map, e.s1) /\ x.add = e.add
+  /\ \A c \in M.cfi : (c.sym \in gone /\ To(map, c.sym) \notin del) =>
+        \E x \in N.cfi : CSite(x) = CSite(c) /\ x.sym = To(map, c.sym) /\ x.args = c.args
+  /\ \A p \in M.fwd : (p[2] \in gone /\ To(map, p[2]) \notin del /\ p[1] \notin del) =>
+        <<p[1], To(map, p[2])>> \in N.fwd
+  \* the deletion removes nothing when every use moved away first
+  /\ (del \subseteq gone /\ \A s \in del : \A p \in M.fwd : p[1] # s) =>
+        (N.sx = E1.sx /\ N.fwd = E1.fwd /\ N.cfi = E1.cfi)
+  \* the CFG is the retargeted one
+  /\ N.edges = E1.edges /\ N.rets = E1.rets /\ N.rest = E1.rest
+
 CaseJson ==
   [family |-> "retarget", abi |-> cfg.abi, pie |-> cfg.pie, kinds |-> cfg.kinds,
-   uses |-> cfg.uses, reqs |-> cfg.reqs, map |-> cfg.map]
+   uses |-> cfg.uses, reqs |-> cfg.reqs, map |-> cfg.map, del |-> cfg.dels]
 
 PostOk ==
   st.stage = "post" =>
@@ -454,7 +551,13 @@ PostOk ==
         rules == Rules(cfg.abi, cfg.pie)
     IN  /\ RetFacts(M.edges) = G4(M, NonRet(M.edges))
         /\ st.out # {}
-        /\ (st.out = {""} => IsFunctional(map) /\ Theorems(M, st.mod, map, rules))
+        /\ (st.out = {""} =>
+              LET E1 == Expected(M, map, rules) IN
+              /\ IsFunctional(map) /\ Theorems(M, E1, map, rules)
+              /\ TheoremsD(M, E1, st.mod, map, cfg.dels)
+              /\ (cfg.dels = <<>> => st.mod = E1))
+        \* an unforced deletion of a symbol whose uses all move away is never refused
+        /\ (DelSet(cfg.dels) \subseteq (Keys(map) \ Vals(map)) /\ Outcomes(M, cfg.reqs) = {""}) => st.out = {""}
         /\ (st.out # {""} => st.mod = M)
 
 EmitCase == (Emit /\ st.stage = "post") => PrintT("CASE " \o ToJson(CaseJson))
